@@ -77,6 +77,13 @@ def impl(case):
         if e == "nothist": return nothist
         if e[0] == "+": return ev(e[1]) + ev(e[2])
         return sum(ev(x) for x in e[1:])
+    if d["nothist"] != "none":
+        # "outside free-arithmetics mode": an earlier block that enabled it and was left by an exception is over
+        from physt.config import config
+        try:
+            with config.enable_free_arithmetics():
+                raise KeyError("left the block early")
+        except KeyError: pass
     try:
         r = ev(d["expr"])
         if not hasattr(r, "frequencies"): return ["not-a-histogram"]
